@@ -175,6 +175,7 @@ func ceilSec(ns int64) int64 {
 }
 
 func c02Check(r *vkit.Run, in c02Input) {
+	r.Begin("C02", in)
 	obs, calls := c02Exec(in)
 	r.Eval()
 	r.Step(len(in.Ctrs) * (1 + len(in.Matchers)))
